@@ -60,6 +60,10 @@ impl EvalContext {
         }
     }
 
+    pub(crate) fn get_variable(&self, name: &str) -> Option<i64> {
+        self.vars.get(name)
+    }
+
     pub(crate) fn set_outputs(&mut self, outputs: &[OutputEntry<'_>]) {
         self.outputs = outputs
             .iter()
